@@ -256,7 +256,7 @@ def gen_history(rng, lang, opts):
             regs[r] = ref.add(regs[r], cs)
         elif pick == "bounds":
             v = rng.randrange(nv)
-            lo = rng.choice(ks[:12]); hi = lo + rng.choice([0, 1, 2, 5, 10, 100])
+            lo = rng.choice(ks[:12]); hi = lo + rng.choice([0, 1, 2, 5] if ks is KS_SMALL else [0, 1, 2, 5, 10, 100])
             cs = [("le", ([(-1, v)], lo)), ("le", ([(1, v)], -hi))]
             ops.append("assume %d 2 %s" % (r, " ".join(map(fmt_cst, cs))))
             regs[r] = ref.add(regs[r], cs)
@@ -350,7 +350,7 @@ DEFECTS = [
     "hist 3 2 ; assume 1 2 C le E 1 -1 0 0 C le E 1 1 0 -5 ; assume 0 1 C eq E 2 -1 0 1 1 2 ; meet 2 0 1 ; meet 2 1 0",
     # a cycle of positive weight must not leave a self loop behind (fixed: graphdom-5)
     "P 1100 hist 2 4 ; assume 0 1 C le E 2 -1 1 1 2 -5 ; assume 0 2 C le E 2 -1 0 1 1 -5 C le E 2 1 0 -1 2 2 ; copy 1 0 ; forget 1 3 2 3 0",
-    "hist 3 4 ; assume 2 1 C le E 2 -1 1 1 2 1 ; assume 1 1 C lt E 2 -1 1 1 2 -100 ; assume 1 1 C lt E 2 1 1 -1 3 -5 ; assume 1 2 C le E 1 -1 2 2 C le E 2 -1 2 1 3 3 ; meet 0 1 2",
+    "hist 3 4 ; assume 2 1 C le E 2 -1 1 1 2 1 ; assume 1 1 C lt E 2 -1 1 1 2 -20 ; assume 1 1 C lt E 2 1 1 -1 3 -5 ; assume 1 2 C le E 1 -1 2 2 C le E 2 -1 2 1 3 3 ; meet 0 1 2",
 ]
 CORPUS["zone"] = CORPUS["zone"] + DEFECTS
 CORPUS["oct"] = CORPUS["oct"] + [
@@ -369,13 +369,27 @@ def gen(seed, tier, lang, n=None, opts=None):
     opts = dict(opts or {})
     n = n if n is not None else (400 if tier == "quick" else 20000)
     lines = list(CORPUS[lang]) if opts.get("corpus", True) else []
+    if opts.get("ops"):
+        # keep the corpus histories that only use the operations of this stream
+        names = set(opts["ops"]) | {"q_entails", "q_leq", "q_at"}
+        if "bounds" in names:
+            names.add("assume")
+        def ops_of(l):
+            t = l.split()
+            if t[0] == "P":
+                t = t[2:]
+            return set(o.split()[0] for o in " ".join(t).split(" ; ")[1:])
+        lines = [l for l in lines if ops_of(l) <= names]
+        if opts.get("corpus_must"):
+            lines = [l for l in lines if opts["corpus_must"] in ops_of(l)]
     # boundary: histories aimed at the case splits (empty / one-point values, chains that need
     # the transitive step, ties between a relation and the bounds)
-    for _ in range(n // 4):
+    nb = n // 4 if opts.get("boundary", True) else 0
+    for _ in range(nb):
         o = dict(opts)
         o.update(ks=KS_SMALL, maxvars=min(3, opts.get("maxvars", 5)), minops=4, maxops=14, maxq=6, qprob=0.9)
         lines.append(gen_history(rng, lang, o))
-    for _ in range(n - n // 4):
+    for _ in range(n - nb):
         lines.append(gen_history(rng, lang, opts))
     return lines
 
@@ -404,47 +418,67 @@ def leqs(c):
 
 
 BUDGET = [0]
-ENUM_RADIUS = 48
+ENUM_RADIUS = 400
 
 
 def search(cons, nvars, B):
-    """integer point of [-B,B]^nvars satisfying every (terms,k) in cons (sum + k <= 0), by
-    backtracking with pruning on fully assigned constraints; None if the box is exhausted"""
-    by_last = [[] for _ in range(nvars)]
+    """integer point of [-B,B]^nvars satisfying every (terms,k) in cons (sum + k <= 0, at most
+    two unit terms), by backtracking: variables are fixed in index order and every constraint
+    between a fixed and a free variable narrows the range of the free one (forward checking,
+    no transitive reasoning); None if the box is exhausted"""
+    lo0 = [-B] * nvars; hi0 = [B] * nvars
+    links = [[] for _ in range(nvars)]        # links[i] = (a, b, j, k): a*xi + b*xj + k <= 0, j > i
     for terms, k in cons:
-        if not terms:
+        d = {}
+        for a, v in terms:
+            d[v] = d.get(v, 0) + a
+        ts = [(a, v) for v, a in sorted(d.items()) if a != 0]
+        if not ts:
             if k > 0:
                 return None
-            continue
-        by_last[max(v for _, v in terms)].append((terms, k))
-    # unary constraints shrink the ranges
-    lo = [-B] * nvars; hi = [B] * nvars
-    for terms, k in cons:
-        if len(terms) == 1:
-            (a, v), = terms
-            if a == 1:
-                hi[v] = min(hi[v], -k)
+        elif len(ts) == 1:
+            (a, v), = ts
+            if a > 0:
+                hi0[v] = min(hi0[v], (-k) // a)
             else:
-                lo[v] = max(lo[v], k)
+                lo0[v] = max(lo0[v], -((-k) // (-a)))
+        elif len(ts) == 2 and abs(ts[0][0]) == 1 and abs(ts[1][0]) == 1:
+            (a, i), (b, j) = ts
+            links[i].append((a, b, j, k))
+        else:
+            raise OverflowError
     s = [0] * nvars
 
-    def go(i):
+    def go(i, lo, hi):
         if i == nvars:
             return True
+        if not links[i]:
+            # the value of xi restricts no later variable: one value decides
+            s[i] = lo[i]
+            return go(i + 1, lo, hi)
         for x in range(lo[i], hi[i] + 1):
             BUDGET[0] -= 1
             if BUDGET[0] < 0:
                 raise OverflowError
             s[i] = x
+            lo2, hi2 = lo, hi
             ok = True
-            for terms, k in by_last[i]:
-                if sum(a * s[v] for a, v in terms) + k > 0:
-                    ok = False
-                    break
-            if ok and go(i + 1):
+            if links[i]:
+                lo2 = list(lo); hi2 = list(hi)
+                for a, b, j, k in links[i]:
+                    if b == 1:          # xj <= -k - a*x
+                        hi2[j] = min(hi2[j], -k - a * x)
+                    else:               # xj >= k + a*x
+                        lo2[j] = max(lo2[j], k + a * x)
+                    if lo2[j] > hi2[j]:
+                        ok = False
+                        break
+            if ok and go(i + 1, lo2, hi2):
                 return True
         return False
-    return list(s) if go(0) else None
+    if any(lo0[v] > hi0[v] for v in range(nvars)):
+        return None
+    return list(s) if go(0, lo0, hi0) else None
 
 
 def holds_all(cons, s):
@@ -584,7 +618,7 @@ MAXDISJ = 6
 
 def oracle_for(lang):
     def oracle(line, ans, rng=None):
-        BUDGET[0] = 300000
+        BUDGET[0] = 1500000
         try:
             return _oracle(lang, line, ans)
         except OverflowError:
